@@ -32,7 +32,8 @@ def run(tier, seed):
                   'round trip: composition of this specification with C03\'s decoder specification (the two square roots of x^3+7 have opposite parity, no point has y = 0)']
     ck.assumptions = ['coordinates arbitrary field values; the element is a valid representation (C10) for the round-trip conclusion']
     ck.bounds = {'operands': 'all coordinate triples', 'result length': 'solver-split over {1,33,65}, remainder shown infeasible'}
-    kernels.prove(ck, 'field', ['Mul', 'FromMontgomery', 'Nonzero', 'Selectznz'], tier)
+    from props import C12
+    C12.run(tier, seed, ck)   # contracts of the field.Element methods used as summaries are re-proved on the current tree
 
     def battery(key, why):
         path = ck.save_replay({'property': 'C04', 'cases': [{'kind': 'el-battery', 'op': 'encode', 'n': ck.seed}]})
